@@ -102,7 +102,7 @@ def data_dep_before_guard(s):
 
 
 def exotic_guard(s):
-    """exit 2 expected: the square guard of ishermitian becomes a predicate the evaluator cannot decide (never guessed)."""
+    """S: the square guard of ishermitian spelled `not np.isclose(r, c)` on the two integer dimensions (equivalent)."""
     return sub1(s, r'    if r != c:\n        raise ValueError\("Cannot test whether', lambda m: '    if not np.isclose(r, c):\n        raise ValueError("Cannot test whether')
 
 
@@ -218,7 +218,7 @@ MUTANTS = {
     "wrong_family": ("quatica/utils.py", wrong_family, "F"),
     "new_guard": ("quatica/utils.py", new_guard, "E2"),
     "data_dep_before_guard": ("quatica/decomp/tridiagonalize.py", data_dep_before_guard, "S"),
-    "exotic_guard": ("quatica/utils.py", exotic_guard, "E2"),
+    "exotic_guard": ("quatica/utils.py", exotic_guard, "S"),
     "guard_after_try_return": ("quatica/decomp/hessenberg.py", guard_after_try_return, "F"),
     "new_public_function": ("quatica/tensor.py", new_public_function, "E2 (thorough)"),
     "herm_guard_upper_only": ("quatica/decomp/tridiagonalize.py", herm_guard_upper_only, "F"),
